@@ -44,6 +44,7 @@ type cVar struct {
 	PK    string `json:"pk"`   // panic value kind
 	Fast  int    `json:"fast"` // 0 reflective where possible, 1 prefer the built-in fast paths, 2 user FastInvoker
 	Reqs  int    `json:"reqs"` // how many times the request is issued on the same instance
+	Meth  string `json:"meth"` // request method (GET / HEAD / POST): a HEAD response forwards no body but is "written" all the same
 	RH    bool   `json:"rh"`   // a custom ReturnHandler is mapped in the injector: it replaces the default table
 	Der   bool   `json:"der"`  // "C" installs a derived request context first and cancels that one
 }
@@ -355,6 +356,7 @@ func chainVarFor(c *chainCase, idx int) cVar {
 		PK: []string{"string", "error", "runtime", "struct", "abort"}[rng.Intn(5)], Fast: rng.Intn(3), Reqs: 1 + rng.Intn(2)}
 	v.Der = rng.Intn(2) == 0
 	v.RH = rng.Intn(5) == 0
+	v.Meth = []string{"GET", "GET", "HEAD", "POST"}[rng.Intn(4)]
 	v.Mw = rng.Intn(n + 1)
 	v.Group = rng.Intn(n - v.Mw + 1)
 	if rng.Intn(6) == 0 {
@@ -414,10 +416,14 @@ func chainReplay(raw json.RawMessage, idx int, tr *traceWriter) {
 		if g > len(rest) {
 			g = len(rest)
 		}
+		meth := v.Meth
+		if meth == "" {
+			meth = "GET"
+		}
 		if g > 0 {
-			f.Group("/g", func() { f.Get("/r", rest[g:]...) }, rest[:g]...)
+			f.Group("/g", func() { f.Route(meth, "/r", rest[g:]) }, rest[:g]...)
 		} else {
-			f.Get("/g/r", rest...)
+			f.Route(meth, "/g/r", rest)
 		}
 	}
 	switch v.Env {
@@ -437,7 +443,11 @@ func chainReplay(raw json.RawMessage, idx int, tr *traceWriter) {
 		x.panicLog = false
 		x.detail = false
 		x.inRec, x.inRecNext = 0, 0
-		tr.emit(map[string]interface{}{"ev": "req", "kinds": kinds, "n": n, "env": v.Env, "rh": v.RH})
+		meth := v.Meth
+		if meth == "" {
+			meth = "GET"
+		}
+		tr.emit(map[string]interface{}{"ev": "req", "kinds": kinds, "n": n, "env": v.Env, "rh": v.RH, "method": meth})
 		spy := &chainSpy{hdr: http.Header{}, x: x}
 		ctx, cancel := gocontext.WithCancel(gocontext.Background())
 		x.cancel = cancel
@@ -445,7 +455,7 @@ func chainReplay(raw json.RawMessage, idx int, tr *traceWriter) {
 		if v.NF {
 			path = "/nowhere"
 		}
-		req := (&http.Request{Method: "GET", URL: &url.URL{Path: path}, Header: http.Header{}, Proto: "HTTP/1.1", ProtoMajor: 1, ProtoMinor: 1, Host: "x"}).WithContext(ctx)
+		req := (&http.Request{Method: meth, URL: &url.URL{Path: path}, Header: http.Header{}, Proto: "HTTP/1.1", ProtoMajor: 1, ProtoMinor: 1, Host: "x"}).WithContext(ctx)
 		func() {
 			defer func() {
 				if r := recover(); r != nil {
